@@ -109,12 +109,12 @@ func VerifC03Round() {
 			// -2s: s' = -s; -2(s-k): s' = k - c*lambda*x). The structured ones are computed from the real values, so a
 			// counterexample does not depend on the solver's choice of hash outputs and replays natively.
 			delta := c03Scalar("delta_s")
-			switch vs.Pick("delta_kind", 4) {
-			case 1:
+			switch vs.Pick("delta_kind", 4) { // 3: the arbitrary offset
+			case 0:
 				delta = c03NegTwice(ownPrivNonce[i])
-			case 2:
+			case 1:
 				delta = c03NegTwice(sigs[i].S())
-			case 3:
+			case 2:
 				delta = c03NegTwice(SumScalars(sigs[i].S(), c03Neg(ownPrivNonce[i])))
 			}
 			vs.Assume(delta.Validate() == nil) // non-zero (the structured offsets vanish with negligible probability)
